@@ -156,6 +156,8 @@ AffBiRec(k) == LET u == IF k.ty = 1 THEN k.t ELSE Ident IN
 (******************************* family "affmat" *****************************)
 \* all three columns (x, y, x*y; magnitudes up to M^2) mapped by t.  CovarianceMatrix is documented as
 \* the plain two-pass form: entry error <= 2 E^2 + G (2 M^2 + E)^2; checked while E <= 1/4.
+\* The data matrix is abstract (see family "mat" in DescriptiveGen.tla): the replay passes it as a
+\* compact Dense and in one other representation (window / transpose / user type) drawn per case.
 WithTM(k) == {[x |-> k.x, y |-> k.y, w |-> k.w, nilw |-> k.nilw, t |-> t]
               : t \in {u \in Transforms : ESmall(u, M * M, 2) /\ Pick(u, k.x \o k.y, k.w \o k.w)}}
 AffMatCases == IF Family # "affmat" THEN {} ELSE UNION {WithTM(k) : k \in AffBiSpace}
